@@ -178,7 +178,9 @@ pub fn check_zone(
     let want = |zz: &RefZone, t: i64| -> Answer {
         let a = zz.offset_at(t);
         if let Some(last) = zz.trans.last() {
-            if t > last.0 && !(zz.premise_holds() && zz.footer_consistent()) {
+            // (at the last transition itself an inconsistent footer and the table disagree: the
+            // file is outside the premises from there on)
+            if t >= last.0 && !(zz.premise_holds() && zz.footer_consistent()) {
                 return Answer::Unjudged("footer outside the property's premises");
             }
         } else if !zz.premise_holds() {
@@ -857,4 +859,69 @@ pub fn replay(doc: &Json) -> i32 {
             1
         }
     }
+}
+
+/// Writes files and the reference's answers for cross-validation against CPython's zoneinfo.
+pub fn xval_dump(dir: &std::path::Path, seed: u64, n_synth: u64) -> u64 {
+    let _ = std::fs::create_dir_all(dir);
+    let mut w = work("thorough");
+    w.system.clear();
+    w.n_synth = n_synth;
+    let total = w.corpus.len() as u64 + n_synth;
+    let mut n = 0;
+    for idx in 0..total {
+        let (case, mut rng) = match load_case(&w, seed, idx) {
+            Some(c) => c,
+            None => continue,
+        };
+        let z = match tzref::parse_tzif(&case.bytes) {
+            Ok(z) => z,
+            Err(_) => continue,
+        };
+        if !z.leaps.is_empty() {
+            continue; // zoneinfo and the reference both ignore leap records; nothing to compare at +-60 s
+        }
+        if z.trans.is_empty() && !matches!(&z.footer, Footer::Rule(_)) && z.types.len() > 1 {
+            // RFC 8536: time type 0 applies. CPython picks the first non-DST type instead; no second
+            // opinion available for this corner, so it is left out of the cross-validation.
+            continue;
+        }
+        let instants = instants_for(&z, &mut rng, 120, 12);
+        let judged_footer = z.premise_holds() && z.footer_consistent();
+        let answers: Vec<Json> = instants
+            .iter()
+            .map(|t| {
+                let after_last = z.trans.last().map(|l| *t >= l.0).unwrap_or(true);
+                if after_last && !judged_footer {
+                    return Json::Null;
+                }
+                match z.offset_at(*t) {
+                    Answer::Offset(o) => Json::Int(o as i128),
+                    Answer::Unjudged(_) => Json::Null,
+                }
+            })
+            .collect();
+        let by_footer: Vec<Json> = instants
+            .iter()
+            .map(|t| Json::Bool(matches!(&z.footer, Footer::Rule(_)) && z.trans.last().map(|l| *t > l.0).unwrap_or(true)))
+            .collect();
+        let jn = match &z.footer {
+            Footer::Rule(r) => match &r.dst {
+                Some(d) => !matches!(d.start, tzref::RuleDate::M { .. }) || !matches!(d.end, tzref::RuleDate::M { .. }),
+                None => false,
+            },
+            _ => false,
+        };
+        let doc = Json::obj()
+            .set("label", Json::s(&case.label))
+            .set("footer", Json::s(&z.footer_text))
+            .set("footer_uses_J_or_n", Json::Bool(jn))
+            .set("by_footer", Json::Arr(by_footer))
+            .set("instants", Json::Arr(instants.iter().map(|t| Json::Int(*t as i128)).collect()))
+            .set("answers", Json::Arr(answers));
+        let _ = std::fs::write(dir.join(format!("{:06}.tzif", idx)), &case.bytes);
+        let _ = std::fs::write(dir.join(format!("{:06}.json", idx)), doc.to_string());
+        n += 1;
+    }
+    n
 }
